@@ -140,6 +140,8 @@ def _documented_dataset(pkg, qual, param, depth=0):
                     continue
                 for n in ast.walk(g.node):
                     if isinstance(n, ast.Call) and ((isinstance(n.func, ast.Name) and n.func.id == short) or (isinstance(n.func, ast.Attribute) and n.func.attr == short)):
+                        from .paths import _spread_keywords
+                        n = _spread_keywords(n) or n          # f(**dict(grid=grid)) is f(grid=grid)
                         names = f.call_params if f.is_method else f.posparams
                         for i, a in enumerate(n.args):
                             if i < len(names) and names[i] == param and isinstance(a, ast.Name) and a.id in g.params:
